@@ -133,11 +133,12 @@ class World(object):
         return json.dumps([self.cls, self.variant, o, n, [l[k] for k in R.FRAMES]])
 
     def fingerprint(self):
+        """Everything a cadence operation could have touched (used to decide whether a rebuild is needed and
+        whether observers / rejected operations left the world alone)."""
         n, l, o = self.observe()
-        fr = sorted((k, sorted((a, repr(b)) for a, b in self.objs[k].metadata.items()), self.objs[k].t_start)
-                    for k in self.objs if R.is_frame(k))
-        return json.dumps([o, n, fr, repr(getattr(self.cad, 't_slew', None)),
-                           repr(getattr(self.cad, 't_overwrite', None))])
+        fr = tuple((k, tuple(self.objs[k].metadata.items()), self.objs[k].t_start)
+                   for k in sorted(self.objs) if R.is_frame(k))
+        return (o, tuple(n), fr, repr(getattr(self.cad, 't_slew', None)), repr(getattr(self.cad, 't_overwrite', None)))
 
 
 def _construct(w, op):
@@ -518,7 +519,7 @@ def case_state(c):
     ne += k
     amb += a
     if w.fingerprint() != fp0:
-        V(_site(cls, '__getitem__'), 'observer_mutated_state', 'observers changed the state: %s -> %s' % (fp0, w.fingerprint()))
+        V(_site(cls, '__getitem__'), 'observer_mutated_state', 'observers changed the state: %r -> %r' % (fp0, w.fingerprint()))
         w, st = rebuild(cls, variant, seed, hist)
         traces += 1
     if c.get('expand', True):
